@@ -9,7 +9,7 @@ from pycaption import DFXPReader, DFXPWriter, SAMIReader, SAMIWriter, WebVTTWrit
 
 PROPERTY = "C11"
 RULE = ("captions of 1-3 lines whose text is cut into pieces, with 0-4 flat (non-nesting) style "
-        "spans - italics, bold, underline or a combination in one span - placed at generated "
+        "spans - italics, bold, underline or a combination in one span, each flag true or (rarely) spelled out as false - placed at generated "
         "piece boundaries: at line start/end, across a line break, adjacent, empty; 1-3 "
         "captions per set. (roundtrip) DFXP->DFXP, SAMI->SAMI, DFXP->SAMI, SAMI->DFXP with "
         "pycaption's writers and readers, per non-space character flags (italic [, bold, "
@@ -18,6 +18,8 @@ RULE = ("captions of 1-3 lines whose text is cut into pieces, with 0-4 flat (non
         "(readers) STYLE nodes of every caption any reader returns for the repository corpus and "
         "for generated documents match like brackets. Non-trivial: at least one non-empty span "
         "that does not cover the whole caption. "
+        "(scc-rollup) roll-up and paint-on streams of the C16 generator with mid-row italics, read with "
+        "and without simulate_roll_up: balanced style nodes. "
         "(webvtt-classes) spans and captions that are italic / bold / underlined through named "
         "styles of the set ('class' / 'classes' references, ids with capitals, inheritance, "
         "true and false values, the same class used repeatedly, inline keys on top), written by "
@@ -48,7 +50,8 @@ def set_strategy(tier):
         for i in range(nspans):
             a, b = cuts[2 * i], cuts[2 * i + 1]
             keys = draw(st.lists(st.sampled_from(KEYS), min_size=1, max_size=3, unique=True))
-            spans.append((a, b, {k: True for k in sorted(keys)}))
+            # (a flag may be spelled out as switched off: legal in an API-built set)
+            spans.append((a, b, {k: draw(st.sampled_from([True, True, True, False])) for k in sorted(keys)}))
         nodes = []
         for idx in range(len(pieces) + 1):
             for a, b, c in spans:
@@ -296,6 +299,30 @@ def check_scc(case, rec):
         rec.label("has-italics")
 
 
+def rollup_strategy(tier):
+    from . import c16
+    return st.tuples(c16.stream_strategy(tier), st.booleans()).map(lambda t: {"stream": t[0], "simulate": t[1]})
+
+
+def check_rollup(case, rec):
+    """Roll-up / paint-on streams with mid-row italics, read with and without simulate_roll_up."""
+    from . import c16
+    from pycaption import SCCReader
+    doc, _rows = c16.build(case["stream"])
+    try:
+        cs = SCCReader().read(doc, simulate_roll_up=True) if case["simulate"] else SCCReader().read(doc)
+    except Exception:  # noqa  (reading SCC is judged by C15 / C16)
+        rec.label("unreadable")
+        return
+    n = 0
+    for i, cap in enumerate(cs.get_captions(cs.get_languages()[0])):
+        check_balanced_py(cap, f"{case['stream']['mode']} stream (simulate_roll_up={case['simulate']}): caption {i} "
+                               f"({cap.get_text()!r}); document: {doc}")
+        n += sum(1 for x in cap.nodes if x.type_ == 2)
+    rec.nontrivial(n > 0)
+    rec.label("simulate_roll_up" if case["simulate"] else "plain")
+
+
 # ------------------------------------------------------------------ spans styled through named styles
 
 CLASS_IDS = ["narrator", "Italic", "boldUnderline", "S1", "loud", "x"]
@@ -427,6 +454,7 @@ def subchecks(tier):
         Sub("roundtrip", check_roundtrip, strategy=set_strategy, examples=(3000, 100000), min_per_shard=100),
         Sub("webvtt", check_webvtt, strategy=set_strategy, examples=(6000, 200000), min_per_shard=300),
         Sub("corpus-readers", check_corpus, chunks=corpus_chunks, expand=corpus_expand, exhaustive=True),
+        Sub("scc-rollup", check_rollup, strategy=rollup_strategy, examples=(4000, 100000), min_per_shard=200),
         Sub("scc-readers", check_scc, strategy=scc_strategy, examples=(2500, 100000), min_per_shard=100),
         Sub("generated-readers", check_gen_docs, strategy=gen_docs_strategy, examples=(4000, 100000), min_per_shard=300),
     ]
